@@ -9,8 +9,8 @@ coverage-guided atheris campaign on the same entry function (thorough tier; its 
 hostile content.
 Oracle: tokenize / parse / parse_with_warnings / parse_meta_only return or raise LexerError / ParserError only
 (RecursionError counts as foreign for bracket nesting <= 100); brackets deeper than 100 are refused with ParserError; every
-tool call returns a dict with status or validation_status that json.dumps accepts; CPU time t(16n)/t(n) <= 64 (i.e. below
-n^1.5), evaluated only when t(16n) >= 50 ms and confirmed three times in fresh processes.
+tool call returns a dict with status or validation_status that json.dumps accepts; CPU time t(16n)/t(n) <= 40 or
+t(16n)/t(4n) <= 6.5 (about n^1.35), evaluated only when t(16n) >= 100 ms and confirmed three times in fresh processes.
 """
 
 from __future__ import annotations
@@ -35,8 +35,8 @@ RULE = (
     "→, ∧, vs, §, #, @, <x>, {y}, space, 2 spaces, newline, tab, ```, ===D===, ===END===, ---, //c, \\}; a seeded sample of sequences of length 5-6 (quick 60k, thorough 2M). (ii) Hypothesis: Unicode text <=300 (no surrogates), punctuation soups, deep brackets (50-140), long number "
     "lexemes. (iii) 5 span mutations x ~40 packaged spec/schema/primer/fixture files x seeds. (iv) atheris (thorough, 8 forks x 6 min; "
     "quick replays the saved corpus). (v) 18 families x {n,4n,16n} CPU time. (vi) 4 tools x hostile content x flags, and histories of 2-4 octave_write calls on one path with structurally different documents (numbered / named / decimal section markers). Oracle: only "
-    "LexerError/ParserError escape the reader, and it answers (30 s alarm for inputs < 20 kB, a hang is confirmed with 90 s in a fresh process); bracket depth >100 => ParserError; tools return JSON-serialisable envelopes with "
-    "status or validation_status; t(16n)/t(n) <= 64 when t(16n) >= 50 ms, breach confirmed 3x in fresh processes. Non-trivial = text "
+    "LexerError/ParserError escape the reader, and it answers (10 CPU-second timer for inputs < 20 kB, a hang is confirmed with a 20 CPU-second limit in a fresh process); bracket depth >100 => ParserError; tools return JSON-serialisable envelopes with "
+    "status or validation_status; t(16n)/t(n) <= 40 or t(16n)/t(4n) <= 6.5 when t(16n) >= 100 ms (n=500; thorough 1500), breach confirmed 3x in fresh processes; a family whose nine reads exceed 300 CPU-seconds is a violation outright. Non-trivial = text "
     "accepted by the tokenizer with >=1 structural token, or rejected with a positioned error at line > 1; distinct by text."
 )
 ASSUMPTIONS = [
@@ -71,13 +71,40 @@ def _alarm(signum, frame):
     raise _Hang()
 
 
-HANG_SECONDS = 30  # for inputs below 20 kB: three orders of magnitude above anything linear
+# CPU-time limits (ITIMER_PROF counts this process's CPU seconds, so a loaded machine cannot trip them). Inputs below
+# 20 kB are read in milliseconds; 10 CPU-seconds is three orders of magnitude above anything linear.
+HANG_CPU = 10.0
+HANG_CPU_AFTER_FIRST = 1.0   # once one hang is confirmed in this process, later cases are cut short and not reported again
+TOOL_HANG_CPU = 30.0
+_HANG_SEEN = [False]
+_LAST_HUNG = [False]
+
+
+def _guard_on(seconds: float) -> bool:
+    import signal
+
+    if not hasattr(signal, "SIGPROF"):
+        return False
+    try:
+        signal.signal(signal.SIGPROF, _alarm)
+    except ValueError:  # not in the main thread
+        return False
+    signal.setitimer(signal.ITIMER_PROF, seconds)
+    return True
+
+
+def _guard_off():
+    import signal
+
+    if hasattr(signal, "SIGPROF"):
+        try:
+            signal.setitimer(signal.ITIMER_PROF, 0)
+        except Exception:
+            pass
 
 
 def read_all(text: str):
     """Run the four reader entry points. Returns (list of (entry, bucket, message), accepted: bool, positioned_late: bool)."""
-    import signal
-
     from octave_mcp.core.lexer import tokenize
     from octave_mcp.core.parser import parse, parse_meta_only, parse_with_warnings
 
@@ -85,24 +112,26 @@ def read_all(text: str):
     bad = []
     accepted = False
     late = False
-    guard = len(text) < 20000 and hasattr(signal, "SIGALRM")
-    if guard:
-        try:
-            signal.signal(signal.SIGALRM, _alarm)
-        except ValueError:  # not in the main thread
-            guard = False
+    guard = len(text) < 20000
+    _LAST_HUNG[0] = False
     for name, fn in (("tokenize", lambda t: tokenize(t)), ("tokenize_lenient", lambda t: tokenize(t, lenient=True)), ("parse", parse),
                      ("parse_with_warnings", parse_with_warnings), ("parse_meta_only", parse_meta_only)):
+        limit = HANG_CPU_AFTER_FIRST if _HANG_SEEN[0] else HANG_CPU
         try:
             if guard:
-                signal.alarm(HANG_SECONDS)
+                guard = _guard_on(limit)
             fn(text)
             if name == "tokenize":
                 accepted = True
         except _Hang:
-            # confirm in a fresh process with a longer limit before calling it a hang (a loaded machine is not a defect)
+            _guard_off()
+            _LAST_HUNG[0] = True
+            if _HANG_SEEN[0]:
+                break
+            # confirm in a fresh process (CPU-time limit there too) before calling it a hang
             if confirm_hang(text):
-                bad.append((name, "Hang@reader", f"no answer within {HANG_SECONDS}s here and within 90s in a fresh process for an input of {len(text)} characters"))
+                _HANG_SEEN[0] = True
+                bad.append((name, "Hang@reader", f"no answer within {HANG_CPU:.0f} CPU-seconds here and within 20 CPU-seconds in a fresh process for an input of {len(text)} characters"))
             break
         except own as e:
             if getattr(e, "line", 0) and e.line > 1:
@@ -113,22 +142,29 @@ def read_all(text: str):
             bad.append((name, bucket(e), repr(e)[:200]))
         finally:
             if guard:
-                signal.alarm(0)
+                _guard_off()
     return bad, accepted, late
 
 
 def confirm_hang(text: str) -> bool:
+    """True iff a fresh interpreter spends more than 20 CPU-seconds in parse_with_warnings(text) (killed by RLIMIT_CPU)."""
     from vf.common import REPO_SRC
 
     code = ("import sys; sys.path.insert(0, sys.argv[1]); from octave_mcp.core.parser import parse_with_warnings\n"
+            "from octave_mcp.core.lexer import tokenize\n"
             "t = sys.stdin.read()\n"
-            "try:\n    parse_with_warnings(t)\nexcept Exception:\n    pass\n")
+            "for f in (tokenize, parse_with_warnings):\n"
+            "    try:\n        f(t)\n    except Exception:\n        pass\n")
+
+    def limit():
+        import resource
+
+        resource.setrlimit(resource.RLIMIT_CPU, (20, 21))
+
     try:
-        subprocess.run([sys.executable, "-c", code, REPO_SRC], input=text, text=True, timeout=90, capture_output=True)
-        return False
-    except subprocess.TimeoutExpired:
-        return True
-    except Exception:
+        r = subprocess.run([sys.executable, "-c", code, REPO_SRC], input=text, text=True, timeout=600, capture_output=True, preexec_fn=limit)
+        return r.returncode in (-24, -9)  # SIGXCPU / SIGKILL at the hard limit
+    except Exception:  # wall-clock timeout or no subprocess: inconclusive, not a finding
         return False
 
 
@@ -305,13 +341,23 @@ def tool_calls(text: str, sh: int):
                                                        parse_error_policy=["error", "salvage"][(k >> 2) & 1])))
     if k % 7 == 0:
         calls.append(("octave_write_changes", lambda: tools.write(target_path=p, changes={"K": text[:50], "META.X": [text[:10]]})))
+    if _LAST_HUNG[0]:
+        return out  # the readers did not answer for this text (reported there); every tool starts with the same readers
     for name, fn in calls:
+        g = len(text) < 20000 and _guard_on(TOOL_HANG_CPU)
         try:
             r = fn()
+        except _Hang:
+            out.append((f"C20:unlisted:{name}:hang", f"{name} used more than {TOOL_HANG_CPU:.0f} CPU-seconds on a content of {len(text)} characters that the readers answer at once | content={text[:300]!r}"))
+            tools.reset()
+            continue
         except BaseException as e:  # noqa: BLE001
             bk = bucket(e)
             out.append((classify_tool(name, bk, text), f"{name} raised {bk}: {e!r} | content={text[:300]!r} (len {len(text)})"))
             continue
+        finally:
+            if g:
+                _guard_off()
         if not isinstance(r, dict) or not ("status" in r or "validation_status" in r):
             out.append((f"C20:unlisted:{name}:envelope-without-status", f"{name} returned {type(r).__name__} with keys {sorted(r)[:8] if isinstance(r, dict) else ''}"))
             continue
@@ -387,14 +433,113 @@ def shard_histories(ctx: Ctx, sh: int, nshards: int, n: int) -> Stats:
     return st
 
 
+
+# ---------------------------------------------------------------------------------------------- (vi-c) typed holes
+HOLE_VALUES = [
+    "1e999", "-1e400", "1e-999", "0", "-0", "007", "9" * 30, "-2.5", "1.0.0", "true", "false", "null", "[]", "[[]]", "[a,b]", "[k::v]", "[k::v,k::w]",
+    '""', '"x"', '"a b"', '"line\\nbreak"', '"\u00e9\u2028\x85"', "x", "a->b", "a+b", "NAME<q>", "NAME[a]", "§1", "§", "$V", "$1:x", '["x"∧REQ]', '["x"∧REGEX["("]]',
+    '["x"∧ENUM[]]', "[null]", "[true,1,\"s\"]", "A::B", "a b c", "#tag", "@x", "//c", "<x>", "2001-02-30", "T", "SKILL", "META",
+    '["FIELD[X]::REQ"]', '["FIELD[X]::REQ∧ENUM[A,B]","FIELD[Y]::TYPE[NUMBER]"]', '["nonsense"]', "[FIELD[X]::REQ]", '"FIELD[X]::REQ"',
+]
+HOLE_TEMPLATES = {
+    "top": "===D===\nMETA:\n  TYPE::T\nK::{v}\n===END===\n",
+    "meta_type": '===D===\nMETA:\n  TYPE::{v}\n  VERSION::"1"\nK::1\n===END===\n',
+    "meta_type_contract": '===D===\nMETA:\n  TYPE::{v}\n  CONTRACT::["FIELD[X]::REQ"]\nX::1\n===END===\n',
+    "meta_version": "===D===\nMETA:\n  TYPE::T\n  VERSION::{v}\n===END===\n",
+    "meta_version_contract": '===D===\nMETA:\n  TYPE::T\n  VERSION::{v}\n  CONTRACT::["FIELD[X]::REQ"]\n===END===\n',
+    "meta_contract": "===D===\nMETA:\n  TYPE::T\n  CONTRACT::{v}\nX::1\n===END===\n",
+    "meta_status": "===D===\nMETA:\n  TYPE::T\n  STATUS::{v}\n===END===\n",
+    "meta_other": "===D===\nMETA:\n  TYPE::T\n  ID::{v}\n  GRAMMAR::{v}\n===END===\n",
+    "meta_inline": "===D===\nMETA::{v}\nK::1\n===END===\n",
+    "nested": "===D===\nB:\n  C:\n    K::{v}\n===END===\n",
+    "list_item": "===D===\nK::[a,{v},b]\n===END===\n",
+    "map_value": "===D===\nK::[k::{v}]\n===END===\n",
+    "section": "===D===\n§1::S\n  K::{v}\n===END===\n",
+    "section_name": "===D===\n§1::{v}\n  K::1\n===END===\n",
+    "policy": "===D===\nMETA:\n  TYPE::T\nPOLICY:\n  VERSION::{v}\n  UNKNOWN_FIELDS::{v}\n  TARGETS::{v}\nFIELDS:\n  X::{v}\n===END===\n",
+    "fields_only": '===D===\nFIELDS:\n  X::{v}\n  Y::["a"∧REQ]\n===END===\n',
+    "filter_keys": "===D===\nSTATUS::{v}\nRISKS::{v}\nTESTS:\n  CI::{v}\n===END===\n",
+    "frontmatter": "---\nname: {y}\ndescription: {y}\nallowed-tools: {y}\ndate: {y}\n---\n\n===S===\nMETA:\n  TYPE::SKILL\n  VERSION::\"1\"\n===END===\n",
+    "skill_meta": "---\nname: x\ndescription: y\nallowed-tools: [a]\n---\n\n===S===\nMETA:\n  TYPE::SKILL\n  VERSION::{v}\n  STATUS::{v}\n===END===\n",
+}
+HOLE_YAML = ["x", "[a]", "2001-02-30", "2001-02-28", "12:30:99", "!!binary x", "&a [*a]", "{a: 1}", "~", "1e999", ".inf", ".nan", "0o7", "'", '"', "- x", "? x", "%", "@", "`", "|", ">", "*a", "!!python/none x", "",
+             "2001-02-28T25:00:00Z", "0x", "1_000", "yes"]
+
+
+def hole_calls(text: str, root: str):
+    """Every tool, every mode/format flag, on one content."""
+    calls = []
+    for sch in ("META", "SKILL", "NOPE"):
+        calls.append((f"octave_validate[{sch}]", lambda sch=sch: tools.validate(content=text, schema=sch, fix=True, grammar_hint=True)))
+    calls.append(("octave_validate[diff]", lambda: tools.validate(content=text, schema="META", diff_only=True, compact=True, profile="LENIENT")))
+    for mode in ("canonical", "authoring", "executive", "developer"):
+        for fmt in ("octave", "json", "yaml", "markdown", "gbnf"):
+            calls.append((f"octave_eject[{mode},{fmt}]", lambda mode=mode, fmt=fmt: tools.eject(content=text, schema="META", mode=mode, format=fmt)))
+    calls.append(("octave_eject[template]", lambda: tools.eject(content=None, schema="META", mode="canonical", format="octave")))
+    for fmt in ("gbnf", "json_schema"):
+        calls.append((f"octave_compile_grammar[{fmt}]", lambda fmt=fmt: tools.compile_grammar(content=text, format=fmt)))
+    p = os.path.join(root, "hole.oct.md")
+    calls.append(("octave_write[strict]", lambda: tools.write(target_path=p, content=text, schema="META", grammar_hint=True)))
+    calls.append(("octave_write[lenient]", lambda: tools.write(target_path=p, content=text, lenient=True, schema="SKILL", parse_error_policy="salvage")))
+    calls.append(("octave_write[dry]", lambda: tools.write(target_path=p, content=text, corrections_only=True)))
+    calls.append(("octave_write[changes]", lambda: tools.write(target_path=p, changes={"K": {"$op": "DELETE"}, "META.TYPE": "U", "NEW": [1, "a"]})))
+    calls.append(("octave_write[normalize]", lambda: tools.write(target_path=p)))
+    return calls
+
+
+def shard_holes(ctx: Ctx, sh: int, nshards: int) -> Stats:
+    """Product of positions whose value the tools interpret (META fields, CONTRACT, POLICY/FIELDS, filter keys, frontmatter
+    fields) and values of every kind (out-of-range numbers, lists, maps, holographic patterns, operators, wrong types),
+    through every tool with every mode/format flag."""
+    st = Stats()
+    combos = [(tn, v) for tn in sorted(HOLE_TEMPLATES) for v in (HOLE_YAML if tn == "frontmatter" else HOLE_VALUES)]
+    with scratch_dir() as root:
+        for i, (tn, v) in enumerate(combos):
+            if i % nshards != sh:
+                continue
+            text = HOLE_TEMPLATES[tn].replace("{v}", v).replace("{y}", v)
+            fails, _ = check_text(text, st, None)
+            n_ok = 0
+            for name, fn in hole_calls(text, root):
+                g = _guard_on(TOOL_HANG_CPU)
+                try:
+                    r = fn()
+                    if not isinstance(r, dict) or not ("status" in r or "validation_status" in r):
+                        fails.append((f"C20:unlisted:{name.split('[')[0]}:envelope-without-status", f"{name} returned {type(r).__name__}"))
+                        continue
+                    json.dumps(r)
+                    n_ok += 1
+                except _Hang:
+                    fails.append((f"C20:unlisted:{name.split('[')[0]}:hang", f"{name} used more than {TOOL_HANG_CPU:.0f} CPU-seconds | content={text!r}"))
+                    tools.reset()
+                except BaseException as e:  # noqa: BLE001
+                    bk = bucket(e)
+                    fails.append((classify_tool(name.split("[")[0], bk, text).replace(":raised:", ":hole:raised:"), f"{name} raised {bk}: {e!r} | content={text!r}"))
+                finally:
+                    if g:
+                        _guard_off()
+                st.evaluations += 1
+            st.case({"hole": tn, "value": v, "text": text}, nontrivial=True, labels=["hole_" + tn], key=text)
+            st.labels["hole_tool_calls_answered"] += n_ok
+            seen = set()
+            for sig, det in fails:
+                if sig not in seen:
+                    seen.add(sig)
+                    st.fail(sig, {"kind": "hole", "template": tn, "value": v}, det)
+    return st
+
 # ---------------------------------------------------------------------------------------------- (v) scaling
 def families():
     return {
         "many_lines": lambda n: "===D===\n" + "".join(f"K{i}::v{i}\n" for i in range(n)) + "===END===\n",
         "long_list": lambda n: "===D===\nK::[" + ",".join(f"a{i}" for i in range(n)) + "]\n===END===\n",
-        "long_string": lambda n: '===D===\nK::"' + "x" * (n * 10) + '"\n===END===\n',
-        "quote_runs": lambda n: "===D===\nK::" + '"' * n + "\n===END===\n",
-        "unterminated_triple": lambda n: '===D===\nK::"""' + "abc\n" * n,
+        "long_string": lambda n: '===D===\nK::"' + "x" * (n * 400) + '"\n===END===\n',
+        "quote_runs": lambda n: "===D===\nK::" + '"' * (n * 20) + "\n===END===\n",
+        "unterminated_triple": lambda n: '===D===\nK::"""' + "abc\n" * (n * 40),
+        "unterminated_string": lambda n: '===D===\nK::"' + "a" * (n * 200),
+        "unterminated_string_words": lambda n: '===D===\nK::"' + "ab c, " * (n * 40) + "\n===END===\n",
+        "unterminated_escapes": lambda n: '===D===\nK::"' + "\\\\x" * (n * 60) + "\n",
+        "open_quote_per_line": lambda n: "===D===\n" + "".join(f'K{i}::"open {i}\n' for i in range(n)) + "===END===\n",
         "multi_word": lambda n: "===D===\nK::" + " ".join(f"w{i}" for i in range(n)) + "\n===END===\n",
         "deep_blocks_100": lambda n: "===D===\n" + "".join(("".join(" " * i + f"B{i}:\n" for i in range(60)) + " " * 60 + "X::1\n") for _ in range(max(1, n // 60))) + "===END===\n",
         "brackets_99": lambda n: "===D===\n" + "".join("K::" + "[" * 40 + "a" + "]" * 40 + "\n" for _ in range(max(1, n // 40))) + "===END===\n",
@@ -402,10 +547,10 @@ def families():
         "sections": lambda n: "===D===\n" + "".join(f"§{i}::S{i}\n  K::1\n" for i in range(n)) + "===END===\n",
         "frontmatter": lambda n: "---\n" + "".join(f"k{i}: v\n" for i in range(n)) + "---\n===D===\nK::1\n===END===\n",
         "blank_lines": lambda n: "===D===\n" + "\n" * n + "K::1\n===END===\n",
-        "percent_runs": lambda n: "===D===\nK::" + "%" * n + "\n===END===\n",
+        "percent_runs": lambda n: "===D===\nK::" + "%" * (n * 100) + "\n===END===\n",
         "annotations": lambda n: "===D===\n" + "".join(f"K{i}::NAME<q{i}>\n" for i in range(n)) + "===END===\n",
         "zones_plain": lambda n: "===D===\n" + "".join(f"K{i}::\n```\nx\n```\n" for i in range(n)) + "===END===\n",
-        # families measured super-linear on the pinned tree (known findings)
+        # duplicate_keys is super-linear on the pinned tree (known finding); the next four were (fixed: 9acc6a2, 064ef5b)
         "duplicate_keys": lambda n: "===D===\n" + "K::1\n" * n + "===END===\n",
         "zones_with_tabs": lambda n: "===D===\n" + "".join(f"K{i}::\n```\n\tx\n```\n" for i in range(n)) + "===END===\n",
         "operator_chain": lambda n: "===D===\nK::" + "→".join(f"a{i}" for i in range(n)) + "\n===END===\n",
@@ -414,7 +559,8 @@ def families():
     }
 
 
-KNOWN_SLOW = {"duplicate_keys", "zones_with_tabs", "operator_chain", "flow_lines", "constraint_chain_in_list"}
+SCALING_CPU_LIMIT = 300
+KNOWN_SLOW = {"duplicate_keys"}
 _TIMER = r'''
 import sys, time, json
 sys.path.insert(0, sys.argv[1]); sys.path.insert(0, sys.argv[2])
@@ -441,11 +587,29 @@ print(json.dumps(out))
 def time_family(name: str, ns):
     from vf.common import REPO_SRC
 
-    r = subprocess.run([sys.executable, "-c", _TIMER, REPO_SRC, VERIF_HOME, name, json.dumps(ns)], capture_output=True, text=True, timeout=600,
-                       env={**os.environ, "PYTHONHASHSEED": "0"})
+    def limit():
+        import resource
+
+        resource.setrlimit(resource.RLIMIT_CPU, (SCALING_CPU_LIMIT, SCALING_CPU_LIMIT + 1))
+
+    try:
+        r = subprocess.run([sys.executable, "-c", _TIMER, REPO_SRC, VERIF_HOME, name, json.dumps(ns)], capture_output=True, text=True, timeout=1800,
+                           env={**os.environ, "PYTHONHASHSEED": "0"}, preexec_fn=limit)
+    except subprocess.TimeoutExpired:
+        return None
+    if r.returncode in (-24, -9):
+        return "cpu-limit"
     if r.returncode != 0:
         return None
     return {int(k): v for k, v in json.loads(r.stdout.strip().splitlines()[-1]).items()}
+
+
+def super_linear(t, ns) -> bool:
+    """CPU time (best of three) at n, 4n, 16n: measurable (>= 0.1 s at 16n), more than 40x overall AND more than 6.5x over
+    the last factor of four. Linear readers sit at 14-22x / 3.5-4.5x, the quadratic ones found so far at >50x / >10x."""
+    if t[ns[2]] < 0.1:
+        return False
+    return t[ns[2]] / max(t[ns[0]], 1e-6) > 40 and t[ns[2]] / max(t[ns[1]], 1e-6) > 6.5
 
 
 def shard_scaling(ctx: Ctx, sh: int, nshards: int, base_n: int) -> Stats:
@@ -461,19 +625,27 @@ def shard_scaling(ctx: Ctx, sh: int, nshards: int, base_n: int) -> Stats:
         if t is None:
             st.notes.append(f"scaling family {name}: timing subprocess failed (inconclusive)")
             continue
+        if t == "cpu-limit":
+            # nine reads of inputs of at most 16*base_n units did not finish in SCALING_CPU_LIMIT CPU-seconds: every
+            # linear (and every known quadratic) family needs well under a minute in total
+            sig = f"C20:super-linear:{name}" if name in KNOWN_SLOW else f"C20:unlisted:no-answer-within-cpu-limit:{name}"
+            st.fail(sig, {"kind": "scaling", "family": name, "n": base_n}, f"family {name}: reading inputs of {ns} units did not finish within {SCALING_CPU_LIMIT} CPU-seconds")
+            continue
         ratio = t[ns[2]] / max(t[ns[0]], 1e-6)
-        st.notes.append(f"scaling {name}: t(n={ns[0]})={t[ns[0]] * 1000:.1f}ms t(16n)={t[ns[2]] * 1000:.1f}ms ratio={ratio:.1f}")
-        if t[ns[2]] < 0.05 or ratio <= 64:
+        step = t[ns[2]] / max(t[ns[1]], 1e-6)
+        st.notes.append(f"scaling {name}: t(n={ns[0]})={t[ns[0]] * 1000:.1f}ms t(4n)={t[ns[1]] * 1000:.1f}ms t(16n)={t[ns[2]] * 1000:.1f}ms ratio={ratio:.1f} last-step={step:.1f}")
+        if not super_linear(t, ns):
             continue
         # confirm three times in fresh processes
         confirmed = 0
         for _ in range(3):
             t2 = time_family(name, ns)
-            if t2 is not None and t2[ns[2]] >= 0.05 and t2[ns[2]] / max(t2[ns[0]], 1e-6) > 64:
+            if isinstance(t2, dict) and super_linear(t2, ns):
                 confirmed += 1
         if confirmed == 3:
             sig = f"C20:super-linear:{name}" if name in KNOWN_SLOW else f"C20:unlisted:super-linear:{name}"
-            st.fail(sig, {"kind": "scaling", "family": name, "n": base_n}, f"family {name}: CPU time grows {ratio:.0f}x for 16x the input (limit 64x = n^1.5): {t}")
+            st.fail(sig, {"kind": "scaling", "family": name, "n": base_n},
+                    f"family {name}: CPU time grows {ratio:.0f}x for 16x the input and {step:.1f}x for the last 4x (limits 40x and 6.5x, i.e. about n^1.35): {t}")
     return st
 
 
@@ -614,6 +786,7 @@ def shard_all(ctx: Ctx, sh: int, nshards: int) -> Stats:
             probes(st)
         if sh == 2 % nshards:
             tool_probes(st)
+        st.merge(shard_holes(ctx, sh, nshards))
     return st
 
 
@@ -624,7 +797,7 @@ def check_case(case) -> list[Failure]:
         ctx = Ctx(prop="C20", tier="quick", seed=1, workers=1)
         fams = sorted(families())
         idx = fams.index(case["family"])
-        st = shard_scaling(ctx, idx, len(fams), case.get("n", 250))
+        st = shard_scaling(ctx, idx, len(fams), case.get("n", 500))
         return [f for fl in st.failures.values() for f in fl]
     if k == "tool_probe":
         st = Stats()
@@ -636,6 +809,12 @@ def check_case(case) -> list[Failure]:
         st = Stats()
         probes(st)
         return [f for fl in st.failures.values() for f in fl if f.case == case]
+    if k == "hole":
+        st = Stats()
+        combos = [(tn, v) for tn in sorted(HOLE_TEMPLATES) for v in (HOLE_YAML if tn == "frontmatter" else HOLE_VALUES)]
+        idx = combos.index((case["template"], case["value"]))
+        st = shard_holes(None, idx, len(combos))
+        return [f for fl in st.failures.values() for f in fl]
     if k == "history":
         with scratch_dir() as root:
             p = os.path.join(root, "h.oct.md")
@@ -686,7 +865,7 @@ def run(ctx: Ctx) -> Stats:
     st = run_sharded(shard_all, ctx)
     st.exhaustive = True
     st.notes.append(f"token sequences of <= {ctx.pick(3, 4)} symbols over the {len(SYMS)}-symbol alphabet enumerated completely (the exhaustive flag refers to this part)")
-    st.merge(run_sharded(shard_scaling, ctx, nshards=min(ctx.workers, 8), extra=(ctx.pick(250, 500),)))
+    st.merge(run_sharded(shard_scaling, ctx, nshards=min(ctx.workers, 8), extra=(ctx.pick(500, 1500),)))
     if not ctx.quick:
         fuzz_campaign(ctx, st, seconds=360, forks=8)
     return st
